@@ -52,6 +52,7 @@ const (
 	OpFMul
 	OpFDiv
 	OpFNeg
+	OpFRound32 // a rounded to float32 precision (RNE), as a float64
 	OpFLt
 	OpFLe
 	OpFEq
@@ -853,6 +854,17 @@ func (s *TermStore) FBin(op Op, a, b *Term) *Term {
 	return s.mk(op, SortFloat, a, b, nil, 0, "")
 }
 
+// FRound32 is float64(float32(a)).
+func (s *TermStore) FRound32(a *Term) *Term {
+	if a.op == OpFConst {
+		return s.FConst(float64(float32(math.Float64frombits(a.k))))
+	}
+	if a.op == OpFRound32 {
+		return a
+	}
+	return s.mk(OpFRound32, SortFloat, a, nil, nil, 0, "")
+}
+
 func (s *TermStore) FNeg(a *Term) *Term {
 	if a.op == OpFConst {
 		return s.FConst(-math.Float64frombits(a.k))
@@ -973,6 +985,8 @@ func Eval(t *Term, m Model, memo map[*Term]uint64) uint64 {
 		r = math.Float64bits(f)
 	case OpFNeg:
 		r = math.Float64bits(-math.Float64frombits(Eval(t.a, m, memo)))
+	case OpFRound32:
+		r = math.Float64bits(float64(float32(math.Float64frombits(Eval(t.a, m, memo)))))
 	case OpFLt, OpFLe, OpFEq:
 		x, y := math.Float64frombits(Eval(t.a, m, memo)), math.Float64frombits(Eval(t.b, m, memo))
 		switch t.op {
@@ -1091,6 +1105,8 @@ func (t *Term) body() string {
 		return fmt.Sprintf("(fp.div RNE %s %s)", t.a.ref(), t.b.ref())
 	case OpFNeg:
 		return fmt.Sprintf("(fp.neg %s)", t.a.ref())
+	case OpFRound32:
+		return fmt.Sprintf("((_ to_fp 11 53) RNE ((_ to_fp 8 24) RNE %s))", t.a.ref())
 	case OpFIsNaN:
 		return fmt.Sprintf("(fp.isNaN %s)", t.a.ref())
 	case OpFToSBV:
